@@ -34,7 +34,7 @@ def prepare(tier):
 
 @st.composite
 def case_strategy(draw):
-    case = draw(c01.case_strategy())
+    case = draw(c01.case_strategy(allow_relabel=False))  # the base case keeps small labels; the renaming is this check's own
     pred, ref = np.array(case["pred"]), np.array(case["ref"])
     it = case["input"]
     if it != "SEMANTIC":
